@@ -95,6 +95,48 @@ theorem pure_logic (ih : Pure P cfg n) (l r : Expr) (st : St V) (hl : effectFree
       subst h2
       cases r21 <;> rfl
 
+theorem effectFree_mem : ∀ (es : List Expr), effectFreeList P es = true → ∀ e ∈ es, effectFree P e = true
+  | [], _, _, he => by cases he
+  | x :: xs, h, e, he => by
+      simp only [effectFreeList, Bool.and_eq_true] at h
+      rcases List.mem_cons.mp he with rfl | he
+      · exact h.1
+      · exact effectFree_mem xs h.2 e he
+
+/-- Evaluating selected, effect-free expressions with checks leaves the state alone. -/
+theorem pure_checked (ih : Pure P cfg n) (miss : Err) : ∀ (items : List (Option Expr × (V → Except Err V))) (st : St V),
+    (∀ e chk, (some e, chk) ∈ items → effectFree P e = true) →
+    (evalChecked (evalExpr P cfg n) miss items st).2 = st
+  | [], st, _ => rfl
+  | (none, _) :: _, st, _ => rfl
+  | (some e, chk) :: rest, st, h => by
+      simp only [evalChecked]
+      have h1 := ih.expr e st (h e chk (by simp))
+      generalize evalExpr P cfg n e st = r at h1 ⊢
+      obtain ⟨x, st1⟩ := r
+      simp only at h1
+      subst h1
+      cases x with
+      | error er => rfl
+      | ok v =>
+        simp only []
+        cases chk v with
+        | error er => rfl
+        | ok v' =>
+          simp only []
+          have h2 := pure_checked ih miss rest st1 (fun e' c' hm => h e' c' (List.mem_cons_of_mem _ hm))
+          generalize evalChecked (evalExpr P cfg n) miss rest st1 = r2 at h2 ⊢
+          obtain ⟨y, st2⟩ := r2
+          simp only at h2
+          subst h2
+          cases y <;> rfl
+
+theorem selArgs_mem {args : List Expr} {idx : List Nat} {e : Expr} {chk : V → Except Err V}
+    (h : (some e, chk) ∈ selArgs (V := V) args idx) : e ∈ args := by
+  simp only [selArgs, List.mem_map, Prod.mk.injEq] at h
+  obtain ⟨i, _, hi, _⟩ := h
+  exact List.mem_of_getElem? hi
+
 theorem pure_expr (ih : Pure P cfg n) : ∀ (e : Expr) (st : St V), effectFree P e = true →
     (evalExpr P cfg (n + 1) e st).2 = st
   | .var _ b _, st, _ => by
@@ -130,10 +172,9 @@ theorem pure_expr (ih : Pure P cfg n) : ∀ (e : Expr) (st : St V), effectFree P
       simp only [effectFree] at h
       simp only [evalExpr]
       exact pure_generic ih _ st (by simp [children, effectFreeList, h])
-  | .member o f s1 s2, st, h => by
-      simp only [effectFree] at h
+  | .member o f s1 s2, st, _ => by
       simp only [evalExpr]
-      exact pure_generic ih _ st (by simp [children, effectFreeList, h])
+      exact pure_generic ih _ st (by simp [children, effectFreeList])
   | .call (.var name _ _) args fn _, st, h => by
       simp only [effectFree, Bool.and_eq_true, Bool.not_eq_true'] at h
       simp only [evalExpr, h.1.1, h.1.2, ↓reduceIte]
@@ -146,20 +187,33 @@ theorem pure_expr (ih : Pure P cfg n) : ∀ (e : Expr) (st : St V), effectFree P
   | .call (.member o field fs sp) args fn sp2, st, h => by
       simp only [effectFree, Bool.and_eq_true, Bool.not_eq_true'] at h
       simp only [evalExpr, h.1.1, Bool.false_eq_true, ↓reduceIte]
-      have h1 := ih.list (o :: args) st (by simp [effectFreeList, h.1.2, h.2])
-      generalize evalList P cfg n (o :: args) st = r at h1 ⊢
+      have h1 := ih.expr o st h.1.2
+      generalize evalExpr P cfg n o st = r at h1 ⊢
       obtain ⟨r1, st1⟩ := r
       simp only at h1
       subst h1
-      cases r1 <;> rfl
-  | .call (.index a i s1 s2) args fn sp, st, h | .call (.str _ _) args fn sp, st, h
-  | .call (.num _ _) args fn sp, st, h | .call (.binary _ _ _ _) args fn sp, st, h
-  | .call (.call _ _ _ _) args fn sp, st, h | .call (.array _ _) args fn sp, st, h
-  | .call (.unary _ _ _) args fn sp, st, h | .call (.bool _ _) args fn sp, st, h
-  | .call (.null _) args fn sp, st, h => by
-      simp only [effectFree] at h
+      cases r1 with
+      | error er => rfl
+      | ok recv =>
+        simp only []
+        cases P.memberSel field recv with
+        | error er => rfl
+        | ok idx =>
+          simp only []
+          have h2 := pure_checked ih P.argMissing (selArgs args idx) st1
+            (fun e chk hm => effectFree_mem args h.2 e (selArgs_mem hm))
+          generalize evalChecked (evalExpr P cfg n) P.argMissing (selArgs args idx) st1 = r2 at h2 ⊢
+          obtain ⟨r21, st2⟩ := r2
+          simp only at h2
+          subst h2
+          cases r21 <;> rfl
+  | .call (.index a i s1 s2) args fn sp, st, _ | .call (.str _ _) args fn sp, st, _
+  | .call (.num _ _) args fn sp, st, _ | .call (.binary _ _ _ _) args fn sp, st, _
+  | .call (.call _ _ _ _) args fn sp, st, _ | .call (.array _ _) args fn sp, st, _
+  | .call (.unary _ _ _) args fn sp, st, _ | .call (.bool _ _) args fn sp, st, _
+  | .call (.null _) args fn sp, st, _ => by
       simp only [evalExpr]
-      exact pure_generic ih _ st (by simpa [children] using h)
+      exact pure_generic ih _ st (by simp [children, effectFreeList])
 
 end
 
